@@ -89,6 +89,7 @@ type Rec struct {
 	Suppressed []bool // flush: per alert, the instance's own mute verdict (inhibitor or silencer) at flush time
 	Silenced   []bool // flush: per alert, the silence part of that verdict (direct evaluation of the stored active silences)
 	Inhibited  []bool // flush: per alert, the inhibitor's own Mutes verdict
+	Raw        *AlertObs // publish: the alert as submitted to the provider (Alerts[0] = what the provider then holds)
 }
 
 type Sim struct {
@@ -430,7 +431,8 @@ type GroupRef struct {
 func (s *Sim) PutAlert(a *alert.Alert) {
 	s.mtx.Lock()
 	idx := len(s.recs)
-	s.recs = append(s.recs, Rec{Kind: "publish-skipped", T: time.Now().UnixNano()})
+	raw := ObsOf(a)
+	s.recs = append(s.recs, Rec{Kind: "publish-skipped", T: time.Now().UnixNano(), Raw: &raw})
 	s.mtx.Unlock()
 	if err := s.Alerts.Put(context.Background(), a); err != nil {
 		s.T.Fatalf("Put: %v", err)
